@@ -4,6 +4,7 @@ import (
 	"encoding/json"
 	"fmt"
 	"sort"
+	"sync"
 	"testing/synctest"
 	"time"
 
@@ -76,8 +77,10 @@ type gsim struct {
 	targeted    bool            // targeted split-vote attack run
 	crashes     bool            // crash-restarts of honest voters enabled in this run
 	offEstimate bool            // some honest voter prevoted off the chain of its last round's estimate
+	real        bool            // the real finalisation.go goroutines and the vote tracker drive the rounds (real.go)
 	// honest precommits observed on the wire, for Byzantine replay
 	observed []observedPrecommit
+	rs       *realState
 }
 
 type gnode struct {
@@ -99,6 +102,19 @@ type gnode struct {
 	lastEst      *cu.RefBlock // model: estimate of the round the node left last (nil: none)
 	lastEstRound uint64
 	amnesiac     bool // signed two different votes in one round after a restart wiped its memory
+	// real round driver mode (real.go)
+	outMu    sync.Mutex
+	outbox   []outMsg
+	running  bool
+	runDone  chan struct{}
+	runErr   error
+	runPanic string
+}
+
+// outMsg is a message a node's own goroutines handed to the network stub (real round driver mode).
+type outMsg struct {
+	to  int // -1: gossip
+	raw []byte
 }
 
 // recordOwnVote notes a vote the voter signs. A voter that was restarted in the middle of a round
@@ -129,6 +145,13 @@ func (ns netStub) GossipMessage(msg network.NotificationsMessage) {
 	if err != nil {
 		panic(err)
 	}
+	if ns.n.s.real {
+		// called from the node's own goroutines: only queue, the driver applies the network afterwards
+		ns.n.outMu.Lock()
+		ns.n.outbox = append(ns.n.outbox, outMsg{to: -1, raw: raw})
+		ns.n.outMu.Unlock()
+		return
+	}
 	for j := range ns.n.s.nodes {
 		if j != ns.n.id {
 			ns.n.s.send(ns.n.id, j, raw, "gossip")
@@ -139,6 +162,16 @@ func (ns netStub) SendMessage(to peer.ID, msg gp.NotificationsMessage) error {
 	raw, err := msg.Encode()
 	if err != nil {
 		return err
+	}
+	if ns.n.s.real {
+		for j := range ns.n.s.nodes {
+			if peerOf(j) == to {
+				ns.n.outMu.Lock()
+				ns.n.outbox = append(ns.n.outbox, outMsg{to: j, raw: raw})
+				ns.n.outMu.Unlock()
+			}
+		}
+		return nil
 	}
 	for j := range ns.n.s.nodes {
 		if peerOf(j) == to {
